@@ -149,6 +149,28 @@ class Assume:
                 cov.extend(x.alldeps())
             if cov:
                 env.facts = env.facts | {('cov', 'compare', 'int') + tuple(cov)}
+        # ---- x is None / x is not None (also == / != None)
+        if isinstance(op, (ast.Is, ast.IsNot, ast.Eq, ast.NotEq)) and (lv is NONE or rv is NONE) and not (lv is NONE and rv is NONE):
+            other, onode = (rv, R) if lv is NONE else (lv, L)
+            want_none = isinstance(op, (ast.Is, ast.Eq)) == truth
+            if isinstance(other, MatchV):
+                # a match object is never None once it exists: `m is not None` is `m` as a condition
+                return self.assume_value(other, not want_none, env, onode)
+            if isinstance(other, Maybe):
+                keep = [a for a in other.alts if (a is NONE or isinstance(a, RegNone)) == want_none]
+                if not keep:
+                    return []
+                if isinstance(onode, ast.Name):
+                    nv = keep[0]
+                    for a in keep[1:]:
+                        nv = Maybe.of(nv, a)
+                    env.vars[onode.id] = nv
+                return [env]
+            if isinstance(other, ModSet):
+                return self.assume_value(other, not want_none, env, onode)
+            if other is TOP or isinstance(other, RegNone):
+                return [env]
+            return [] if want_none else [env]
         d = self.compare(op, lv, rv, env, node)
         if d is not None:
             return [env] if d == truth else []
@@ -531,6 +553,16 @@ class Assume:
                     return [env]
                 if name in ('startswith', 'endswith') and len(node.args) == 1:
                     pv = self.eval(node.args[0], env)
+                    # a tuple of alternatives: s.startswith(('1', '3')) is s.startswith('1') or s.startswith('3')
+                    alts_ = None
+                    if isinstance(pv, PyConst) and isinstance(pv.v, tuple) and pv.v and all(isinstance(x, str) for x in pv.v):
+                        alts_ = list(pv.v)
+                    elif isinstance(pv, Tup) and pv.elems and all(isinstance(x, Str) and S.const_value(env, x) is not None for x in pv.elems):
+                        alts_ = [S.const_value(env, x) for x in pv.elems]
+                    if alts_ is not None:
+                        calls = [ast.copy_location(ast.Call(func=node.func, args=[ast.copy_location(ast.Constant(value=a_), node)], keywords=[]), node) for a_ in alts_]
+                        disj = calls[0] if len(calls) == 1 else ast.copy_location(ast.BoolOp(op=ast.Or(), values=calls), node)
+                        return self.assume(disj, truth, env)
                     t = self.starts_truth(obj, pv, name == 'startswith', env)
                     if t is not None:
                         return [env] if t == truth else []
